@@ -18,7 +18,7 @@ Proof.
 Qed.
 
 Definition is_set_params (o : op) : bool :=
-  match o with OSetParams _ _ _ => true | _ => false end.
+  match o with OSetParams _ _ _ _ => true | _ => false end.
 
 Lemma step_opt_keeps_params s o s' :
   step_opt s o = Some s' -> is_set_params o = false ->
@@ -65,7 +65,7 @@ Definition proj (W : world) (o : mop) (d : denom) : option op :=
   | MTransfer d' a f t x => if N.eqb d d' then Some (OTransfer a f t x (authz_accepts W a f t d' x)) else None
   | MWithdrawOther d' _ t e x => if N.eqb d e then Some (OMove (escrow d') t x) else None
   | MGovWithdrawOther _ d' t e x => if N.eqb d e then Some (OMove (escrow d') t x) else None
-  | MSetParams a mx gv => Some (OSetParams a mx gv)
+  | MSetParams a mx mts gv => Some (OSetParams a mx mts gv)
   | MBeginBlock => if in_dom W d then Some OBeginBlock else None
   | MAuthzGrant _ _ _ _ | MAuthzRevoke _ _ => None
   end.
